@@ -47,7 +47,7 @@ META = {
                   "cached bias corrections are outside the saved state: the theorem is about fault-free continuations (stated in props/C09.v).",
     "level_note": "Trusted: Coq kernel + vm_compute; the hand-written model, tied to /repo by exact comparison of key lists / param-group keys / "
                   "exception classes on every generated case and believed only that far; the arithmetic of a step is the C01 model (tied by C01), C09 "
-                  "uses only that it is a function of the saved state. Implementation side: serial Distributor layout, binary64 (the rank_r-block_i "
+                  "uses only that it is a function of the saved state. Implementation side: serial Distributor layout, parameter/factor dtype pairings f64/f64, f32/f64, f64/f32, bf16/f32, f32/f32 compared on raw bit patterns (the rank_r-block_i "
                   "naming of the DDP layouts is covered by the theorems, DTensor state is not exercised here); bit-for-bit equality is observed on CPU "
                   "with one thread. Tensor shapes/dtypes inside a checkpoint are outside the model (a foreign-shaped tensor raises RuntimeError in "
                   "copy_). param_group options edited between steps are limited to those read at step time (lr, momentum, weight decay).",
@@ -56,6 +56,18 @@ META = {
 
 AMORT = [("shampoo", "eigen"), ("soap", "eigh"), ("soap", "qr")]
 IGNORED = [[], [0], [0, 1, 2, 3], [], [1], [0], []]
+# bfloat16 FACTORS are never used: torch.linalg.qr has no bfloat16 kernel (known finding F11)
+DTYPES = [("float64", "float64"), ("float32", "float64"), ("float64", "float32"), ("bfloat16", "float32"), ("float32", "float32"), ("float64", "float64")]
+
+
+def _dt(name):
+    import torch
+    return getattr(torch, name)
+
+
+def dtypes_of(case):
+    pd, fd = case.get("dtypes", ["float64", "float64"])
+    return _dt(pd), _dt(fd)
 HEADER = """From Coq Require Import ZArith List String Bool.
 From Coq Require Uint63. Import PrimInt63.
 From Shampoo Require Import Show StateDict Optimizer Checkpoint CheckpointChecker.
@@ -83,6 +95,9 @@ def gen_case(rng, idx, thorough):
     c0["betas"] = (b1, c0["betas"][1])
     c0["beta3"] = rng.choice([-1.0, 0.25]) if b1 != 0.0 else -1.0
     c0["max_dim"] = [2, 3, 1024, 1][(idx // 3) % 4]
+    # (parameter dtype, preconditioner_dtype): the state tensors the lists work on must stay the registered (saved) ones
+    # whatever the pairing (a cast may silently return a private copy)
+    case["dtypes"] = list(DTYPES[(idx // 3) % len(DTYPES)])
     cap = {1: 6, 2: 12}.get(c0["max_dim"])
     if cap is not None:                                # blocked parameters, but a bounded number of blocks (the model's dicts are association lists)
         small = [sh for sh in c01.SHAPES if math.prod(sh) <= cap]
@@ -155,8 +170,41 @@ def walk(obj, path, out):
             walk(v, path + [i], out)
 
 
-def snapshot(opt, params):
-    """(paths, bits): parameters, state tensors (step counters included), step-time options of the param_groups."""
+def live_tensors(opt):
+    """The tensors the optimizer actually WORKS on (the lists of the preconditioner objects, the momentum / filtered-gradient lists,
+    the step counters), keyed like the state tensor each of them must be: (parameter, json path in optimizer.state[parameter])."""
+    from distributed_shampoo.shampoo_types import (FILTERED_GRAD_LIST, GRAFTING_PRECONDITIONER_LIST, MOMENTUM_LIST, SHAMPOO_PRECONDITIONER_LIST,
+                                                   STEP)
+    live = {}
+    for gi, g in enumerate(opt.param_groups):
+        sl = opt._per_group_state_lists[gi]
+        blocks, infos = optrun.group_handles(opt, gi)
+        kfl = getattr(sl[SHAMPOO_PRECONDITIONER_LIST], "_local_kronecker_factors_list", None)
+        gl = getattr(sl.get(GRAFTING_PRECONDITIONER_LIST), "_local_preconditioner_list", None)
+        for j, info in enumerate(infos):
+            name, p = info.composable_block_ids[1], info.param
+            if kfl is not None:
+                for attr, val in vars(kfl[j]).items():
+                    if isinstance(val, (tuple, list)):
+                        for i, t in enumerate(val):
+                            live[(p, json.dumps([name, "shampoo", attr, i]))] = t
+                    else:
+                        live[(p, json.dumps([name, "shampoo", attr]))] = val
+            if gl is not None:
+                live[(p, json.dumps([name, "adagrad"]))] = gl[j]
+            if MOMENTUM_LIST in sl:
+                live[(p, json.dumps([name, "momentum"]))] = sl[MOMENTUM_LIST][j]
+            if FILTERED_GRAD_LIST in sl:
+                live[(p, json.dumps([name, "filtered_grad"]))] = sl[FILTERED_GRAD_LIST][j]
+        live[(g["params"][0], json.dumps(["step"]))] = sl[STEP]
+    return live
+
+
+def snapshot(opt, params, live=None):
+    """(paths, bits): parameters, state tensors (step counters included), step-time options of the param_groups.
+    With live (see live_tensors): every state tensor that has a working counterpart is read THROUGH the working tensor (cast to the
+    registered tensor's dtype): equal to the plain snapshot iff what optimizer.state registers - what a checkpoint saves - holds the live values."""
+    import torch
     paths, bits = [], []
     for gi, ps in enumerate(params):
         for pi, p in enumerate(ps):
@@ -167,6 +215,10 @@ def snapshot(opt, params):
             walk(opt.state[p] if p in opt.state else {}, [], ts)
             for path, t in ts:
                 paths.append(f"state{gi}.{pi}:" + json.dumps(path))
+                if live is not None and (p, json.dumps(path)) in live:
+                    w = live[(p, json.dumps(path))]
+                    if isinstance(w, torch.Tensor):
+                        t = w.detach().reshape(t.shape).to(t.dtype) if w.numel() == t.numel() else w
                 b = _bits(t)
                 bits += [len(b)] + b
     for gi, g in enumerate(opt.param_groups):
@@ -227,7 +279,7 @@ def do_load(case, sd, pk, k2p_order):
     """Fresh optimizer over copies of the parameter values pk, load sd; returns (outcome, opt, params)."""
     import torch
     ps = [[torch.nn.Parameter(t.detach().clone()) for t in g] for g in pk]
-    opt = optrun.build_optimizer(case, ps)
+    opt = optrun.build_optimizer(case, ps, dtype=dtypes_of(case)[1])
     nm = names_of(ps)
     nm = [nm[i] for i in k2p_order]
     try:
@@ -238,7 +290,7 @@ def do_load(case, sd, pk, k2p_order):
     return out, opt, ps
 
 
-def cont(case, opt, params, start, T):
+def cont(case, opt, params, start, T, live_out=None):
     snaps, err = [], None
     dummy = [dict() for _ in params]
     for si in range(start, T):
@@ -251,6 +303,8 @@ def cont(case, opt, params, start, T):
             err = (si, f"{type(e).__name__}: {e}"[:200])
             break
         snaps.append(snapshot(opt, params))
+        if live_out is not None:
+            live_out.append(snapshot(opt, params, live_tensors(opt)))
     return snaps, err
 
 
@@ -266,14 +320,16 @@ def impl_worker(args):
     torch.set_num_threads(1)
     rng = random.Random(mseed)
     try:
-        params = optrun.build_params(case)
-        opt = optrun.build_optimizer(case, params)
+        pdt, fdt = dtypes_of(case)
+        params = optrun.build_params(case, dtype=pdt)
+        opt = optrun.build_optimizer(case, params, dtype=fdt)
     except Exception as e:  # noqa
         return {"error": f"ctor {type(e).__name__}: {e}"[:300]}
     T = len(case["steps"])
     # reference run: nothing is saved
     ref = [snapshot(opt, params)]
-    snaps, err = cont(case, opt, params, 0, T)
+    livetr = [snapshot(opt, params, live_tensors(opt))]
+    snaps, err = cont(case, opt, params, 0, T, livetr)
     ref += snaps
     if err is not None:
         T = err[0]                                   # the history is cut before the step that raises (C13's subject)
@@ -282,8 +338,8 @@ def impl_worker(args):
     order_save = list(range(nparams))
     order_load = list(reversed(range(nparams)))
     # second run: a checkpoint is taken at every stop point
-    params_b = optrun.build_params(case)
-    opt_b = optrun.build_optimizer(case, params_b)
+    params_b = optrun.build_params(case, dtype=pdt)
+    opt_b = optrun.build_optimizer(case, params_b, dtype=fdt)
     dummy = [dict() for _ in params_b]
     saverun, sds, pks = [], [], []
     for k in range(T + 1):
@@ -296,7 +352,10 @@ def impl_worker(args):
             optrun.apply_edits(opt_b, dummy, st)
             optrun.set_grads(case, params_b, st)
             opt_b.step()
-    resumed, own_outcomes, diag = [(0, saverun)], [], []
+    # trajectories that must equal the reference run from step 0: the run that saves at every stop point, and the reference run read
+    # through the optimizer's working tensors (registered state == live state, at every step)
+    resumed, own_outcomes, diag = [(0, saverun), (0, livetr[:T + 1])], [], []
+    nlive = len(live_tensors(opt))
     for k in range(T + 1):
         out, o2, p2 = do_load(case, sds[k], pks[k], order_load)
         own_outcomes.append(out)
@@ -310,13 +369,14 @@ def impl_worker(args):
             diag.append(f"k={k}: resumed run raised at step {e2[0]}: {e2[1]}")
         resumed.append((k, tr))
     # python-side diagnosis (the decision is C09_checkb's)
-    for k, tr in resumed:
+    for ti, (k, tr) in enumerate(resumed):
+        label = {0: "saving run, ", 1: "registered state vs working tensors, "}.get(ti, "")
         for j, (pp, bb) in enumerate(tr):
             if k + j > T:
                 break
             rp, rb = ref[k + j]
             if pp != rp:
-                diag.append(f"k={k} after {k + j} steps: tensor paths differ")
+                diag.append(f"{label}k={k} after {k + j} steps: tensor paths differ")
                 break
             if bb != rb:
                 # locate the first differing tensor
@@ -327,7 +387,7 @@ def impl_worker(args):
                         which = name
                         break
                     pos += n
-                diag.append(f"k={k} after {k + j} steps: {which} differs")
+                diag.append(f"{label}k={k} after {k + j} steps: {which} differs")
                 break
     own_state, own_groups = sd_keys(sds[T])
     keys_by_k_same = all(sd_keys(s) == (own_state, own_groups) for s in sds)
@@ -375,6 +435,7 @@ def impl_worker(args):
     return {"T": T, "cut": err, "layout": layout, "names": nm, "order_load": order_load, "ref": [b for _, b in ref],
             "resumed": [(k, [b for _, b in tr]) for k, tr in resumed], "own_outcomes": own_outcomes, "own_state": own_state,
             "own_groups": own_groups, "keys_by_k_same": keys_by_k_same, "mal": mal, "diag": diag,
+            "nlive": nlive, "dtypes": case.get("dtypes"),
             "nontrivial_k": sum(1 for k in range(1, T) if ref[k][1] != ref[0][1] and ref[T][1] != ref[k][1]),
             "npaths": len(ref[0][0])}
 
@@ -512,7 +573,7 @@ def run(ck: Check) -> None:
     files, index = coq_files(results)
     out = ck.eval_coq(files, timeout=1200)
 
-    hist = {"kind": {}, "graft": {}, "groups": {}, "ignored": {}, "max_dim": {}, "momentum": {}, "beta1": {}, "T": {}, "blocks_per_param": {},
+    hist = {"dtypes(param,factors)": {}, "kind_x_dtypes": {}, "live_tensors_checked": 0, "kind": {}, "graft": {}, "groups": {}, "ignored": {}, "max_dim": {}, "momentum": {}, "beta1": {}, "T": {}, "blocks_per_param": {},
             "blocks_without_kronecker_factor": 0, "cases_with_such_blocks": 0, "edits": 0, "absent_gradients": 0, "histories_cut_by_step_error": 0,
             "malformed": {}, "own_loads": 0, "checkpoints_with_same_keys_at_every_k": 0}
     evaluations = nontrivial = ctor_err = 0
@@ -526,6 +587,9 @@ def run(ck: Check) -> None:
         def bump(k, v):
             hist[k][str(v)] = hist[k].get(str(v), 0) + 1
         bump("kind", f"{c0['kind']}/{c0['amort']}")
+        bump("dtypes(param,factors)", "/".join(case.get("dtypes", ["float64", "float64"])))
+        bump("kind_x_dtypes", f"{c0['kind']}/{c0['amort']} " + "/".join(case.get("dtypes", ["float64", "float64"])))
+        hist["live_tensors_checked"] += res["nlive"] * (res["T"] + 1)
         bump("graft", c0["graft"])
         bump("groups", len(case["groups"]))
         bump("ignored", c0["ignored"])
@@ -597,18 +661,19 @@ def run(ck: Check) -> None:
     ck.coverage.update({
         "evaluations": evaluations,
         "distinct_nontrivial": nontrivial,
-        "rule": "case = configuration (Shampoo eigen / SOAP eigh / SOAP QR x grafting None/SGD/Adagrad/RMSprop/Adam x momentum x beta1 x ignored dims "
+        "rule": "case = configuration ((parameter dtype, preconditioner_dtype) in f64/f64, f32/f64, f64/f32, bf16/f32, f32/f32 x Shampoo eigen / SOAP eigh / SOAP QR x grafting None/SGD/Adagrad/RMSprop/Adam x momentum x beta1 x ignored dims "
                 "incl. all dims and [0] on 1-D blocks x max_preconditioner_dim 1/2/3/1024 x 1-2 param groups with overrides) x history of T steps with "
                 "absent gradients and lr/momentum/weight-decay edits; evaluation = one load_distributed_state_dict into a fresh optimizer (own checkpoint "
                 "at every stop point k = 0..T followed by the run to T compared bit for bit after every step, or one malformed checkpoint) decided inside "
-                "coqc; non-trivial = a stop point 0 < k < T whose state differs from the initial one and from the final one",
+                "coqc; besides, per case, two trajectories that must equal the reference run bit for bit from step 0: the run that saves at every stop point, and the "
+                "reference run with every state tensor read through the tensor the optimizer actually works on (registered/saved state == live state at every step);  non-trivial = a stop point 0 < k < T whose state differs from the initial one and from the final one",
         "samples": [{"cfg": cases[i]["groups"][0]["cfg"], "shapes": [g["shapes"] for g in cases[i]["groups"]], "T": results[i]["T"],
                      "flat_keys_first_param": [json.dumps(k) for k in results[i]["own_state"][0][1]][:8]} for i in good[:3]],
         "distribution": hist, "cases": len(cases), "corpus_cases": ncorpus, "constructor_errors": ctor_err,
         "cases_failing_the_property": len(bad_prop), "cases_with_broken_tie": len(bad_tie),
         "tensors_per_snapshot_max": max([results[i]["npaths"] for i in good] or [0]), "exhaustive": False,
     })
-    ck.assumptions += ["serial Distributor layout, binary64 parameters and factors, CPU, one thread",
+    ck.assumptions += ["serial Distributor layout, CPU, one thread; dtype pairings as listed under distribution (no bfloat16 factors: known finding F11)",
                        "histories are cut before a step that raises (failure tolerance / non-finite factors are C13's subject)",
                        "fault-free continuations: failure counters are not part of the saved state"]
     ck.notes.append("a checkpoint from which a whole parameter entry is removed loads without error (model and implementation agree): the property speaks "
